@@ -11,6 +11,7 @@ For every rank the harness checks, on the implementation's outputs,
 For every reset of a random-direction ranker the draw is reproduced with a parallel
 np.random.default_rng(seed) and target_measure_dir must equal z * (upper - lower) bit for bit; the model's exact
 z ⊙ (upper − lower) must round to it."""
+import py2v_rank
 import copy
 import json
 import os
@@ -22,8 +23,11 @@ import numpy as np
 from common import err_code, CORPUS
 
 CONFIG = {
-    "cone": ["Model/Ranker.v", "Spec/RankerSpec.v", "Proofs/RankerProofs.v", "Properties/C17.v"],
-    "trusted": ["Model/Ranker.v models numpy's argsort/lexsort/flip/stack/dot on exact rationals (ties: stable order; the "
+    "cone": ["Model/Ranker.v", "Spec/RankerSpec.v", "Proofs/RankerProofs.v", "Generated/RankGen.v", "Refine/RankRefine.v", "Properties/C17.v"],
+    "extra_property_files": ["Refine/RankRefine.v"],
+    "trusted": ["harness/py2v_rank.py: fail-closed extractor of the ranker key table (stages, sort key, flip) of rankers.py into "
+                "Generated/RankGen.v on every run; Refine/RankRefine.v proves that Model/Ranker.v ranks by exactly that table",
+                "Model/Ranker.v models numpy's argsort/lexsort/flip/stack/dot on exact rationals (ties: stable order; the "
                 "implementation's tie order is unspecified and is not compared)",
                 "archive.compute_density and the standard-normal draws are inputs of the model (oracle tables supplied by the harness: "
                 "the draws are reproduced with np.random.default_rng(seed))",
@@ -828,6 +832,7 @@ def report(rep, case, problems, driver):
 
 
 def check(rep, tier, seed, driver):
+    py2v_rank.report(rep)
     import ribs.emitters.rankers as R
     rng = random.Random(seed)
     n_cases = 700 if tier == "quick" else 20000
